@@ -178,4 +178,18 @@ META = {
                 "the tinder swiper is not driven",
         "technique": "deterministic simulation: seeded clock-advance/register/resolve/exchange histories on a simulated clock vs period model",
     },
+    "C06": {
+        "text": "Fault/attack enumeration on the real handshake state machines: honest requester and responder instances run as goroutines "
+                "in a synctest bubble, every frame passes through the simulated adversarial transport. Catalogue: faithful relay, one "
+                "fault on any frame in either direction (bit flip, truncation, oversize, drop, duplicate, negative acknowledge, "
+                "degenerate hello, reflection), adversary as a legitimate endpoint, the two-phase low-order relay with all 7 small-order "
+                "points and 5 non-canonical encodings, wrong target, foreign key types, cross-session replay of any recorded frame. "
+                "Oracle = matching conversations: a responder reporting key K had, in this very session, a peer holding K's private "
+                "half (an honest requester instance with a matching transcript, or the adversary with its own key); a succeeding "
+                "requester had a matching responder instance of its target; faithful relay completes on both sides.",
+        "design_ref": "section 5, C06; appendix B.5",
+        "note": "frame-level transport (byte-level framing is C18); handleIncomingRequest and the contact message that follows the handshake "
+                "are not driven; small-order Ed25519 identity keys are outside the catalogue",
+        "technique": "deterministic simulation: real protocol endpoints against a scripted adversarial transport, attack-catalogue enumeration, matching-conversation oracle",
+    },
 }
